@@ -10,7 +10,8 @@ RULE = (
     "generators; for + and - two instances of one shape), element vectors of equal length 0..6, one of the five "
     "operators + - * / //, and then ALL nine (list,tuple,ndarray)x(list,tuple,ndarray) container combinations are "
     "evaluated. Oracle (differential): Array(a) op Array(b) has, for every i, the value of Scalar(a_i) op Scalar(b_i) "
-    "(rel 1e-12) and the Scalar result's quantity (==), identically for all nine combinations; operands of different "
+    "(rel 1e-12) and the Scalar result's quantity (==), identically for all nine combinations, plus six combinations with an "
+    "integer-dtype ndarray (whole numbers) on one side and fractional values on the other; operands of different "
     "lengths (incl. length 0 or 1 against n) must raise for every combination; Array.FromScalars(scalars)[i] is "
     "scalars[i] re-expressed in the array's unit (db float conversion, 1e-12*S) with mixed units/categories, also "
     "with unit=/category= given; Array.GetValues(unit)[i] == Scalar(a_i).GetValue(unit) for every container kind. "
@@ -121,6 +122,32 @@ class Checker:
                 ctx.cls("combo_%s_%s" % (ka, kb))
                 if n >= 2 and (ka != kb or differs):
                     ctx.nontrivial((ka, kb, op, n, repr(case["qa"]), repr(case["qb"])), sub if len(ctx.samples) < 8 and ka != kb and differs else None)
+        # an integer-dtype ndarray on one side (whole numbers) against fractional values on the other: the values
+        # of the other operand must not be coerced to the integer dtype
+        if n:
+            ia = [float(round(x)) or 1.0 for x in va]
+            ib = [float(round(y)) or 1.0 for y in vb]
+            for side, xa, xb, kinds in (("left", ia, vb, (("ndarray_int", "list"), ("ndarray_int", "tuple"), ("ndarray_int", "ndarray"))), ("right", va, ib, (("list", "ndarray_int"), ("tuple", "ndarray_int"), ("ndarray", "ndarray_int")))):
+                refi = [_apply(op, Scalar.CreateWithQuantity(qa, x), Scalar.CreateWithQuantity(qb, y)) for x, y in zip(xa, xb)]
+                for ka, kb in kinds:
+                    A = Array.CreateWithQuantity(qa, gen.as_container(ka, [int(x) for x in xa] if ka == "ndarray_int" else xa))
+                    B = Array.CreateWithQuantity(qb, gen.as_container(kb, [int(y) for y in xb] if kb == "ndarray_int" else xb))
+                    sub = dict(case, ka=ka, kb=kb, int_side=side)
+                    ctx.ev()
+                    try:
+                        R = _apply(op, A, B)
+                    except Exception as e:
+                        where = core.tree_frame(e) or "outside_tree"
+                        ctx.fail("array_op_raises:%s@%s:int_ndarray" % (type(e).__name__, where), sub, "Array(%s) %s Array(%s) raised %s: %s" % (ka, op, kb, type(e).__name__, str(e)[:200]))
+                        continue
+                    for i, (got, sref) in enumerate(zip(list(R.GetValues()), refi)):
+                        want = sref.GetValue()
+                        if op == "//" and got != want and abs(got - want) == 1.0:
+                            continue
+                        scale = abs(want) + (abs(xa[i]) + abs(got) if op in "+-" else 0.0)
+                        if not core.close(float(got), want, scale, 1e-12):
+                            ctx.fail("array_element_differs_from_scalar:%s:int_ndarray" % op, dict(sub, i=i), "element %d of Array(%s %r) %s Array(%s %r) is %r, the Scalars give %r" % (i, ka, xa, op, kb, xb, got, want))
+                    ctx.cls("combo_with_int_ndarray")
         ctx.cls("op_%s" % op)
         ctx.cls("len_%d" % n)
         if differs:
